@@ -94,6 +94,13 @@ func genLex(w *bufio.Writer, tier string, r *rng) {
 	enumStrings(alpha24, n24, emit)
 	enumStrings(alpha12, n12, emit)
 	focusedStrings(tier, emit)
+	// every literal prefix x quote form x escape (valid, truncated, out of range) x position, alone and followed by more tokens:
+	// both lexer modes must agree with the model on them (the recovery mode turns the malformed ones into <bad> tokens)
+	literalCases(func(s string) {
+		emit([]byte(s))
+		emit([]byte(s + " x"))
+		emit([]byte("1 + " + s + ", 2"))
+	})
 	for _, s := range corpusStrings() {
 		emit([]byte(s))
 	}
